@@ -40,12 +40,12 @@ THEOREMS = [
     "cluster_is_product",
     "outlier_terms",
 ]
-BUDGET = {"quick": 55, "thorough": 420}
+BUDGET = {"quick": 58, "thorough": 420}
 SEARCH_BUDGET = 60
 RULE = ("input files with 1..5 mutations x 1..3 samples (major 1..5 >= minor, normal 1..2, depth 0..60 quick / ..400 "
         "thorough, a few at 2000), tumour content and error rate as dyadics or the decimals 1e-3/1e-2/0.2 (the floats "
         "pandas parsed are what the model receives, exactly), both densities, precision in {1,2,40,400,1000,1/2,81/2}, "
-        "grid 1..21 and 101, optional clustering (with / without outlier_prob column, zero entries, assign flag; kind 'intcol': the column holds the integer literal 0 only) and "
+        "grid 1..21 and 101, optional clustering (with / without outlier_prob column, zero entries, assign flag; kind 'intcol': the column holds the integer literal 0 only; kind 'clsize': the cluster file also lists a mutation with major copy number 0 and / or one absent from the data) and "
         "optional missing tumour_content / error_rate columns; every grid entry and outlier term of load_data is "
         "compared with the Lean model's exact rational and, independently, with a Fraction evaluation of the formula "
         "in the property; 'sumone' files hold all alternate counts 0..n at fixed depth and the grids must sum to one; "
@@ -58,7 +58,10 @@ TRUSTED = ["pandas.read_table parses the numbers of the input file (the parsed f
            "numerically (1e-9 binomial, 1e-8 beta-binomial, relative to max(1,|value|))",
            "the chromosome-based outlier-probability assignment (_assign_out_prob) is not part of this property and "
            "is not exercised"]
-ASSUMPTIONS = ["normal copy number >= 1 (with 0 the code raises ZeroDivisionError at CCF 0; the model refuses too)",
+ASSUMPTIONS = ["'cluster size' in the property is read as the number of mutations the cluster file lists for the cluster (rows after "
+               "drop_duplicates), which is what the code uses, also when some of them contribute no grid (removed by the "
+               "loader's filters or absent from the data file); the grid is the sum over the members present in the data",
+               "normal copy number >= 1 (with 0 the code raises ZeroDivisionError at CCF 0; the model refuses too)",
                "precision > 0", "cluster file consistent with the data file (each mutation in exactly one cluster, "
                "one outlier_prob per cluster)"]
 
@@ -186,6 +189,12 @@ def gen_load(rnd, tier, i):
         G, M, S, depth = (101 if i % 24 == 0 or not big else 201), 1, 1, min(depth, 60)
     if big and i % 40 == 1:
         G, M, S, depth, dyadic = rnd.choice([2, 3]), 1, 1, 2000, True
+    # exact rational arithmetic costs ~ entries x depth (x depth again for non-dyadic parameters): cap it
+    cap = 40000 if dyadic else 5000
+    if not dyadic:
+        depth = min(depth, 150)
+    while G * M * S * depth > cap and G > 2:
+        G = max(g for g in (1, 2, 3, 5, 11, 21, 51, 101, 201) if g < G)
     density = rnd.choice(["binomial", "beta-binomial"])
     samples = rnd.sample(["A", "B", "S10", "S2", "zz"], S)
     ids = rnd.sample([f"m{j}" for j in range(20)] + ["chr1:100", "a_mut", "Z"], M)
@@ -226,6 +235,31 @@ def gen_intcol(rnd, i):
                                                   "t": "0.75", "eps": "0.001"}]}]})
         c["clusters"] = {"assign": False, "low_loss": "0.0001", "high_loss": "0.4", "per_sample_rows": False,
                          "groups": [{"id": 0, "members": ["m1"], "p": "0"}]}
+    return c
+
+
+def gen_clsize(rnd, i):
+    """cluster file that also lists mutations contributing no grid: one removed by the loader (major copy
+    number 0 in the data file) and / or one absent from the data file"""
+    while True:
+        c = gen_load(rnd, "quick", 1)
+        if c["clusters"] and c["outlier_prob"] != "0":
+            break
+    c["kind"] = "clsize"
+    samples = [r["sample"] for r in c["muts"][0]["rows"]]
+    groups = c["clusters"]["groups"]
+    if i % 3 != 1:
+        c["muts"].append({"id": "cnzero", "rows": [{"sample": s, "ref": 4, "alt": 1, "major": 0, "minor": 0, "normal": 2,
+                                                    "t": "0.5", "eps": "0.125"} for s in samples]})
+        rnd.choice(groups)["members"].append("cnzero")
+    if i % 3 != 2:
+        rnd.choice(groups)["members"].append("not_in_data")
+    if i == 0:  # the minimal instance
+        c.update({"density": "binomial", "G": 3, "outlier_prob": "0.25", "cols": {"tumour_content": False, "error_rate": False},
+                  "muts": [{"id": "m1", "rows": [{"sample": "A", "ref": 10, "alt": 5, "major": 2, "minor": 1, "normal": 2, "t": "1.0", "eps": "0.001"}]},
+                           {"id": "m2", "rows": [{"sample": "A", "ref": 10, "alt": 5, "major": 0, "minor": 0, "normal": 2, "t": "1.0", "eps": "0.001"}]}]})
+        c["clusters"] = {"assign": False, "low_loss": "0.0001", "high_loss": "0.4", "per_sample_rows": False,
+                         "groups": [{"id": 0, "members": ["m1", "m2", "m3"], "p": None}]}
     return c
 
 
@@ -289,7 +323,7 @@ def gen_malformed(rnd, which):
 def cases(tier, rnd):
     out = []
     q = tier == "quick"
-    for i in range(300 if q else 4000):
+    for i in range(180 if q else 6000):
         out.append(gen_load(rnd, tier, i))
     for i in range(30 if q else 200):
         out.append(gen_sumone(rnd, tier, i))
@@ -301,6 +335,8 @@ def cases(tier, rnd):
         out.append(gen_extreme(rnd))
     for i in range(4 if q else 12):
         out.append(gen_intcol(rnd, i))
+    for i in range(4 if q else 12):
+        out.append(gen_clsize(rnd, i))
     for w in ["major_lt_minor", "normal_zero", "precision_zero", "no_cluster"] * (2 if q else 4):
         out.append(gen_malformed(rnd, w))
     return out
@@ -363,7 +399,8 @@ def parsed_rows(fn, case):
             e = Fraction(float(df["error_rate"].iloc[i])) if "error_rate" in df.columns else Fraction(1e-3)
             rows.append({"ref": r["ref"], "alt": r["alt"], "major": r["major"], "minor": r["minor"],
                          "normal": r["normal"], "t": t, "eps": e})
-        muts.append({"id": m["id"], "rows": rows})
+        if all(r["major"] > 0 for r in rows):  # the loader drops mutations with major copy number 0
+            muts.append({"id": m["id"], "rows": rows})
     return muts
 
 
@@ -403,9 +440,12 @@ def expected_points(case, muts, cprobs):
     by_id = {m["id"]: m for m in muts}
     pts = []
     for g in sorted(cl["groups"], key=lambda g: g["id"]):
-        mem = [by_id[x] for x in sorted(g["members"])]
+        mem = [by_id[x] for x in sorted(g["members"]) if x in by_id]
+        if not mem:
+            continue
         cp = spec_cluster_prob(cprobs[g["id"]], cl["assign"], Fraction(float(cl["low_loss"])), p)
-        pts.append((str(g["id"]), mem, cp, len(mem)))
+        # cluster size = number of mutations the cluster file lists for the cluster (also those the loader drops)
+        pts.append((str(g["id"]), mem, cp, len(set(g["members"]))))
     return pts
 
 
@@ -419,8 +459,10 @@ def model_request(case, muts, cprobs):
         pos = {m["id"]: i for i, m in enumerate(muts)}
         req["clusters"] = {"assign": bool(cl["assign"]), "low_loss": fr(Fraction(float(cl["low_loss"]))),
                            "groups": [{"members": [pos[x] for x in sorted(g["members"]) if x in pos],
+                                       "listed": len(set(g["members"])),
                                        "col": (fr(cprobs[g["id"]]) if cprobs[g["id"]] is not None else None)}
-                                      for g in sorted(cl["groups"], key=lambda g: g["id"])]}
+                                      for g in sorted(cl["groups"], key=lambda g: g["id"])
+                                      if case["kind"] == "malformed" or any(x in pos for x in g["members"])]}
     return req
 
 
@@ -659,7 +701,7 @@ def check_extreme(ctx, case, use_model=True):
     ctx.done(case, nontrivial=True, sample=case)
 
 
-KINDS = {"load": check_load, "malformed": check_load, "intcol": check_load, "sumone": check_sumone, "genotypes": check_genotypes,
+KINDS = {"load": check_load, "malformed": check_load, "intcol": check_load, "clsize": check_load, "sumone": check_sumone, "genotypes": check_genotypes,
          "prims": check_prims, "extreme": check_extreme}
 
 
